@@ -479,7 +479,22 @@ func checkC09(v *tunView, m *connModel) {
 		}
 	}
 	// (f) runs in which nothing is wrong with the live connection: no reconnect, no termination
-	if c.FaultFree && c.Director == 0 && !c.CloseEarly {
+	if c.FaultFree && c.Director == 0 && !c.CloseEarly && (c.Adversary == 0 || c.ForeignOnly) {
+		if c.ForeignOnly {
+			e.Probe("foreign-channel-only-run")
+			for _, s := range r.h.Sends {
+				if !s.Done || !s.OK {
+					e.Violate("C09", "foreign-frames-disturb-send", "only frames for foreign channels were injected, yet Send id=%d failed: done=%v err=%q", s.ID, s.Done, s.Err)
+					break
+				}
+			}
+			for _, x := range v.tx {
+				if x.F.OK && (x.F.Svc == svcDiscRes || x.F.Svc == svcDiscReq) && (m.closeInv == nil || x.At.Seq < m.closeInv.Seq) {
+					e.Violate("C09", "foreign-frames-trigger-disconnect", "only frames for foreign channels were injected, yet the client sent %s at %v", x.F, x.At.T)
+					break
+				}
+			}
+		}
 		if len(m.connReqTx) > 1 {
 			e.Violate("C09", "spurious-reconnect", "no fault touched the live connection in this run, yet the client issued %d connect attempts", len(m.connReqTx))
 		}
